@@ -28,7 +28,10 @@ CFG = {'streams': [{'name': 'C18',
                 'bundles are moved to and read on another thread, where displays are recomputed), the complete text of display and display_pretty '
                 'for every reported error (under catch_unwind), and the citation flags computed on the Rust side from the real text (a display that '
                 'does not cite path:line:col is a DIFF, verdict 11, whatever the model says).',
- 'assumptions': ['oracle: a visible ERROR or MISSING node implies tree.root_node().has_error() (checked on every generated tree, verdict 99); the '
+ 'assumptions': ['the wording of the two error kinds is a parameter of the display model (theorems hold for any wording); the harness reads the two '
+                 'phrases off the implementation once per run (plain display of a zero-width MISSING node and of a non-empty ERROR node of fixed '
+                 'sources) and falls back on the wording of the pinned commit when the format is not recognised',
+                 'oracle: a visible ERROR or MISSING node implies tree.root_node().has_error() (checked on every generated tree, verdict 99); the '
                  'converse is false for real trees (`pass pass` has a MISSING hidden _newline: has_error() without any flagged visible node) and is '
                  'not assumed',
                  'TreeCursor goto_first_child/goto_next_sibling/goto_parent behave as the zipper of the recorded tree (the recorded tree is itself '
